@@ -417,48 +417,7 @@ type regIn struct {
 
 type regState struct {
 	Val  string
-	Last string // "c:seq,c:seq" sorted by c
-}
-
-func lastGet(s string, c int) int {
-	for _, p := range strings.Split(s, ",") {
-		if p == "" {
-			continue
-		}
-		kv := strings.Split(p, ":")
-		if kv[0] == strconv.Itoa(c) {
-			n, _ := strconv.Atoi(kv[1])
-			return n
-		}
-	}
-	return -1
-}
-
-func lastSet(s string, c, seq int) string {
-	m := map[int]int{}
-	for _, p := range strings.Split(s, ",") {
-		if p == "" {
-			continue
-		}
-		kv := strings.Split(p, ":")
-		a, _ := strconv.Atoi(kv[0])
-		b, _ := strconv.Atoi(kv[1])
-		m[a] = b
-	}
-	m[c] = seq
-	var ks []int
-	for k := range m {
-		ks = append(ks, k)
-	}
-	sort.Ints(ks)
-	var sb strings.Builder
-	for i, k := range ks {
-		if i > 0 {
-			sb.WriteByte(',')
-		}
-		fmt.Fprintf(&sb, "%d:%d", k, m[k])
-	}
-	return sb.String()
+	Last [4]int16 // per client: last applied sequence number + 1 (0 = none)
 }
 
 var regModel = porcupine.Model{
@@ -483,10 +442,11 @@ var regModel = porcupine.Model{
 	Step: func(st, in, out interface{}) (bool, interface{}) {
 		s := st.(regState)
 		i := in.(regIn)
-		if i.Seq <= lastGet(s.Last, i.Client) {
+		if int16(i.Seq) < s.Last[i.Client] {
 			return false, s // per-connection program order
 		}
-		ns := regState{Val: s.Val, Last: lastSet(s.Last, i.Client, i.Seq)}
+		ns := s
+		ns.Last[i.Client] = int16(i.Seq) + 1
 		if i.Write {
 			ns.Val = i.Arg
 			return true, ns
@@ -530,13 +490,13 @@ func c10register(c *Check, rng *rand.Rand) {
 			c.Violate(Violation{Class: "proxy-died", Shape: "register-workload", Detail: env.P.PanicLine()})
 			return
 		}
-		nclients := 2 + rng.Intn(3)
+		nclients := 2 + rng.Intn(2)
 		nkeys := 1 + rng.Intn(3)
 		keys := make([]string, nkeys)
 		for i := range keys {
 			keys[i] = Key(rng.Intn(16384), fmt.Sprintf("reg%d.%d", rd, i))
 		}
-		opsPer := 4 + rng.Intn(11)
+		opsPer := 4 + rng.Intn(9)
 		pause := rd%3 == 2
 		type sent struct {
 			in   regIn
